@@ -66,13 +66,13 @@ CLAIMED = {
          "getter of DateTime and Time == the field of the instant shifted by the offset, for all Fixed offsets in range.",
     note=TB + "Offset::resolve is trusted (Fixed(s) -> s; Local -> arbitrary value in range per call); Offset::from_seconds/from_hms/resolve_hms are under C15's unit; formatted fields are outside (C11).", ref="5 C10"),
  'C17': dict(
-    text="Verus proves the real CronSchedule::next (partial correctness, every clock reading): the result t is a whole minute, matches the "
+    text="Verus proves the real CronSchedule::next for every clock reading, in two variants (B: partial correctness for any schedule; A: total correctness - the loop terminates by `decreases w - inst(next)` and no add_*/clear_* call can panic - whenever some matching minute w lies after the base and 70 days before the end of the range, i.e. for satisfiable schedules): the result t is a whole minute, matches the "
          "schedule as the property defines it (month, hour, minute sets and the day-of-month OR day-of-week rule by which fields are restricted), "
          "is later than base = max(previous result, current minute of the clock reading clock_now(), an uninterpreted value, so every reading is covered), and no matching whole minute lies in (base, t) - by a loop "
          "invariant with one calendar lemma per skip (a month/day/hour/minute outside the set contains no match); last_schedule is updated and "
          "the five sets are unchanged. cron_two_calls composes two calls: strictly increasing, nothing skipped or repeated (induction step of the "
          "history property). The DateTime getters/clears it uses are proved for offset-0 values in unit cron_view; add_* are the C04/C05 contracts (variant B).",
-    note=TB + "termination is NOT proved (an unsatisfiable schedule loops until add_months panics at the end of the range; exec_allows_no_decreases_clause); panics of add_* at the range end are allowed (variant B); DateTime::now() returns the uninterpreted clock_now() (any well-formed UTC value >= 1970; within one verification condition the same at every call, next() reads it once); std HashSet<u8> through vstd's model (group_hash_axioms); `last >= now` through the real PartialEq/PartialOrd/Ord impls proved in unit ord; derive(Clone) on CronSchedule (a clone continues identically) trusted; CronSchedule::parse is outside (C16).", ref="5 C17"),
+    note=TB + "termination and panic-freedom are proved under the witness precondition of variant A only (an unsatisfiable schedule walks to the end of the range, where add_months panics: variant B lets that diverge and uses exec_allows_no_decreases_clause); DateTime::now() returns the uninterpreted clock_now() (any well-formed UTC value >= 1970; within one verification condition the same at every call, next() reads it once); std HashSet<u8> through vstd's model (group_hash_axioms); `last >= now` through the real PartialEq/PartialOrd/Ord impls proved in unit ord; derive(Clone) on CronSchedule (a clone continues identically) trusted; CronSchedule::parse is outside (C16).", ref="5 C17"),
  'C18': dict(
     text="Verus proves TimeZone::to_local_time_type(ts).utoff == tz_offset(tz, ts), the RFC 8536 reading written from the property: the type of "
          "the latest transition at or before ts (sorted table), and past the last transition or with none the POSIX TZ footer rule: fixed, or "
